@@ -38,7 +38,7 @@ def generate(rng, tier):
     kinds = ["bool", "int", "float", "str", "date", "datetime", "obool", "lstr"]
     spec = []
     for j in range(rng.randint(1, 5)):
-        kind = rng.choice(kinds + (["uint64"] if target == "arrow" else []))
+        kind = rng.choice(kinds + (["uint64"] if target == "arrow" else []) + (["int32", "float32"] if rng.random() < 0.15 else []))
         na = rng.choice(["none", "some", "first", "first", "last", "all"])
         hostile = 0.3
         vals = gen.gen_values(rng, kind, n, na, rng.choice(["few", "distinct"]), hostile)
@@ -150,6 +150,11 @@ def execute(case):
             if not ok:
                 feat = "with-na" if any(c == canon.NA for c in pre[k]) else "no-na"
                 res.violate(f"{target}:dtype-differs:{k0}:{feat}", f"column {k!r}: {np.asarray(dict.__getitem__(df, k)).dtype} came back {np.asarray(dict.__getitem__(back, k)).dtype}; {ctx}")
+            elif kinds[k] in ("int32", "float32") and not any(c == canon.NA for c in pre[k]) or kinds[k] == "float32":
+                d0, d1 = np.asarray(dict.__getitem__(df, k)).dtype, np.asarray(dict.__getitem__(back, k)).dtype
+                if d0 != d1 and d1 in (np.dtype("int64"), np.dtype("float64")):
+                    # mechanism key of a recorded finding (known_findings.json): the width of a narrow numeric column does not survive any conversion
+                    res.violate("dtype-widened:narrow-numeric-column", f"{target}: column {k!r}: {d0} came back {d1}; {ctx}")
                 return res.dict()
     if canon.frame_cells(df) != pre:
         res.violate(f"{target}:mutated-input", ctx)
